@@ -1,5 +1,4 @@
 import Verif.Gen.Versions
-import Verif.Gen.VersionLib
 import Verif.Lemmas.Version
 
 /-! # C03 — client initialization never settles on a protocol version it did not offer
@@ -375,21 +374,6 @@ example : (runClients parseDate (fun _ => none)
        (0, ["2025-06-18", "2025-03-26"], none, .version "2026-01-01")]).map (fun r => (r.1, r.2.1, r.2.2.2))
     = [(0, .ok "2025-03-26", some ("2025-03-26", true)), (1, .ok "2025-06-18", some ("2025-06-18", false)),
        (0, .mismatch, some ("2025-03-26", true))] := by decide
-
-/-- The one-line helpers next to `send_initialize` (`get_supported_versions`, `get_current_version`,
-`is_version_supported`, `validate_version_format`) and the legacy `_supports_batch_processing` are
-plain calls of the function they name with their own arguments (REGENERATED alias table): what the
-theorems say about the callee (C04's version-utility theorems, C13's `supports_batching` theorems)
-holds for the helper. -/
-theorem c03_helpers_are_aliases :
-    Verif.Gen.VersionLib.aliases =
-      [("get_supported_versions", "ProtocolVersion.get_all_supported"),
-       ("get_current_version", "ProtocolVersion.get_latest_supported"),
-       ("is_version_supported", "ProtocolVersion.is_supported"),
-       ("validate_version_format", "ProtocolVersion.validate_format"),
-       ("_supports_batch_processing", "supports_batching")] := by decide
-
-example : Verif.Gen.VersionLib.aliases.length = 5 := by decide
 
 /-- Instance: when the caller passes no list the client offers the library's own list
 (regenerated); it is non-empty and contains no empty string, so every theorem above applies,
